@@ -15,6 +15,8 @@ Inductive case :=
      (obs : list (list (list ev)))      (* per operator: the HandleEventBatch arguments in call order *)
      (wms : list (list N))              (* per operator: the values of the delivered watermarks, read at delivery: q = "max event
                                            time - 1ns is the time of the q-th record read", 0 = no event yet *)
+     (aborted : bool)                   (* the reader reported a terminal error: the loop gives up, the run is not failure-free;
+                                           only the safety half is checked (nothing wrong delivered, order, cuts) *)
      (bad : bool).                      (* overlapping calls to one operator, or the run exceeded the guard time *)
 
 Fixpoint list_eqb {A} (eqb : A -> A -> bool) (a b : list A) : bool :=
@@ -135,7 +137,7 @@ Section Case.
   Definition wm_values_ok : bool :=
     forallb (fun i => prefixN (nth i wms []) (wm_expected 0 0 input)) (seq 0 n_ops).
 
-  Definition check (bad : bool) : list N :=
+  Definition check (aborted bad : bool) : list N :=
     (if Nat.eqb (length obs) n_ops then [] else [3]) ++
     (if batch_sizes_ok then [] else [2]) ++
     (if no_dup_no_foreign then [] else [10]) ++
@@ -144,7 +146,8 @@ Section Case.
     (if markers_ok then [] else [13]) ++
     (if wm_values_ok then [] else [15]) ++
     (if bad then [14] else []) ++
-    (if nothing_missing && markers_complete then (if model_agrees then [] else [1])
+    (if aborted then []
+     else if nothing_missing && markers_complete then (if model_agrees then [] else [1])
      else if negb delay && model_agrees && no_dup_no_foreign then [100]
      else (if nothing_missing then [] else [10]) ++ (if markers_complete then [] else [13]) ++
           (if model_agrees then [] else [1])).
@@ -152,7 +155,7 @@ End Case.
 
 Definition nodup (l : list N) : list N := fold_right (fun c acc => if existsb (N.eqb c) acc then acc else c :: acc) [] l.
 Definition check_case (c : case) : list N :=
-  match c with RC nops kgc mx delay input obs wms bad => nodup (check nops kgc mx delay input obs wms bad) end.
+  match c with RC nops kgc mx delay input obs wms aborted bad => nodup (check nops kgc mx delay input obs wms aborted bad) end.
 
 Definition run (cases : list (N * case)) : list (N * N) :=
   flat_map (fun ic => map (fun code => (fst ic, code)) (check_case (snd ic))) cases.
